@@ -144,6 +144,9 @@ func VerifMutilatedAnswers() {
 		`{ getHumans { name phone } }`,
 		`{ getHumans { friends { phone } } }`,
 		`{ me { best { phone age } friends { name } } }`,
+		// fields the gateway answers itself next to fields of services: a failure below still shows
+		`{ __typename me { name phone } }`,
+		`{ me { name phone } __schema { queryType { name } } }`,
 	}
 	q := ops[verifChoice("op", len(ops))]
 	verifLog("op: " + q)
@@ -191,7 +194,18 @@ func VerifMutilatedAnswers() {
 		verifReach("failure signal reported")
 	}
 	got := map[string]bool{}
-	vLeaves(out["data"], got)
+	if dm, ok := out["data"].(map[string]interface{}); ok {
+		// what the gateway answers itself (root __typename, __schema, __type) comes from no service
+		own := map[string]interface{}{}
+		for k, v := range dm {
+			if len(k) < 2 || k[:2] != "__" {
+				own[k] = v
+			}
+		}
+		vLeaves(own, got)
+	} else {
+		vLeaves(out["data"], got)
+	}
 	for leaf := range got {
 		verifAssert(vServed[leaf], "no value appears in data that no service returned: "+leaf)
 	}
